@@ -21,7 +21,8 @@ MODULES = {"numpy", "numpy.random", "numpy.ma", "numpy.linalg", "warnings", "skl
 
 EXC_NAMES = ["AssertionError", "ValueError", "TypeError", "KeyError", "IndexError", "AttributeError",
              "RuntimeError", "NotImplementedError", "ZeroDivisionError", "Exception", "StopIteration",
-             "ImportError", "NotFittedError", "FloatingPointError"]
+             "ImportError", "NotFittedError", "FloatingPointError", "Warning", "RuntimeWarning", "UserWarning", "DeprecationWarning",
+             "FutureWarning"]
 
 NOOPS = {"print", "warnings.warn", "tqdm.tqdm", "textwrap.dedent", "pprint.pprint", "warnings.simplefilter"}
 
